@@ -30,6 +30,7 @@ import AioMySensors.Properties.C07
 import AioMySensors.Lemmas.Safe
 import AioMySensors.Lemmas.Resp
 import AioMySensors.Lemmas.Across
+import AioMySensors.Lemmas.Absent
 import AioMySensors.Properties.C05
 
 namespace AioMySensors.C19
@@ -529,6 +530,64 @@ theorem history_stable_across_lines (v w : Ver) (hv : v = .v14 ∨ v = .v15) (hw
     (hk : s1.pv.isSome = true) (hobs : ∀ o ∈ (run s1 ops).2, NoMissingOutcome o) :
     AllSame (run s1 ops).2 (run s2 ops).2 ∧ CrossSt v w (stateAfter s1 ops) (stateAfter s2 ops) :=
   history_stable_across_lines_handlers v w hv hw ops hops s1 s2 hs (runRefsKnown_of_observed v hv ops s1 hk hobs)
+
+/-! #### The same, read off the registry
+
+"No unknown node or child is referenced" as a statement about the registry and the message, not
+about the error a handler raised: at every step of the older run, the message either names no
+registry entry (`NamesNothing`: a node presentation, or an internal message that is not a report
+about its sender — id / config / time requests, log messages ...) or the registry of that moment
+holds the node it names and, for set / req, the child (`Registered`).  How the node got into the
+registry does not matter: loaded, presented, or registered with default values by the id-request
+handler and not presented yet. -/
+
+/-- The step stays inside the registry. -/
+def StepInRegistry (v : Ver) (s : St) : Op → Prop
+  | .recv _ line _ => s.proto = v → ∀ m, decode v line = some m → NamesNothing v m ∨ Registered s m
+  | .send _ _ _ => True
+
+/-- Every step of the older gateway's run stays inside the registry of its moment. -/
+def RunInRegistry (v : Ver) : St → List Op → Prop
+  | _, [] => True
+  | s, op :: ops => StepInRegistry v s op ∧ RunInRegistry v (stepOp s op).1 ops
+
+/-- **Registry membership is enough**: a step inside the registry raises no missing error in the
+handler (of any version `v`) — `notMissing_of_registered`, `notMissing_of_namesNothing`. -/
+theorem stepRefsKnown_of_registry (v : Ver) (s : St) (op : Op) (h : StepInRegistry v s op) : StepRefsKnown v s op := by
+  cases op with
+  | send obj b faults => trivial
+  | recv env line faults =>
+    intro hp m hd
+    rcases h hp m hd with hn | hr
+    · exact notMissing_of_namesNothing env v m _ hn
+    · exact notMissing_of_registered env v m (decode_cmd_range hd) { st := s, faults := faults } hr
+
+theorem runRefsKnown_of_registry (v : Ver) (ops : List Op) (s : St) (h : RunInRegistry v s ops) : RunRefsKnown v s ops := by
+  induction ops generalizing s with
+  | nil => trivial
+  | cons op ops ih => exact ⟨stepRefsKnown_of_registry v s op h.1, ih _ h.2⟩
+
+/-- **Every history across the lines 1.x → 2.x, with the domain read off the registry.**  Two
+gateways, the older on `v` ∈ {1.4, 1.5}, the newer on `w` ≥ 2.0, started from states that agree and
+hold no presentation-request marker, fed the same history (received lines with arbitrary
+write-fault schedules, and `send` calls) in which every line that decodes has a type that exists in
+`v` and is not gateway-ready, and in which every message names nothing or something the older
+gateway's registry holds at that moment: the outcomes and the writes agree at every step and the
+final states agree in the same relation.  In particular the traffic of a node that holds an id from
+the id-request handler but has not presented itself is inside: such a node is in the registry. -/
+theorem history_stable_across_lines_registry (v w : Ver) (hv : v = .v14 ∨ v = .v15) (hw : Ver.v20 ≤ w)
+    (ops : List Op) (hops : ∀ op ∈ ops, OpOKAcross v op) (s1 s2 : St) (hs : CrossSt v w s1 s2)
+    (href : RunInRegistry v s1 ops) :
+    AllSame (run s1 ops).2 (run s2 ops).2 ∧ CrossSt v w (stateAfter s1 ops) (stateAfter s2 ops) :=
+  history_stable_across_lines_handlers v w hv hw ops hops s1 s2 hs (runRefsKnown_of_registry v ops s1 href)
+
+/-- The id-request handler puts the next free id into the registry: right after it, a sketch name
+(or battery level, stream, child presentation ...) from that id names a registered node. -/
+theorem placeholder_is_registered (s : St) (m : Msg) (h : m.node = nextId s.nodes) (hc : ¬ (m.cmd = 1 ∨ m.cmd = 2)) :
+    Registered (allocNode { st := s }).2.st m := by
+  refine ⟨placeholderNode, ?_, fun h' => absurd h' hc⟩
+  simp only [allocNode, M.modifySt, h]
+  exact PDict.get?_set_self _ _ _
 
 /-- Two fresh gateways that were told versions of different lines agree in the required way. -/
 theorem fresh_similar_across (v w : Ver) (pv1 pv2 : Str) :
